@@ -344,6 +344,13 @@ class C15Oracle(BaseOracle):
             return self.v("construction-failed",
                           "%s(%s) raised %s: %s" % (ecfg["cls"], _ecfg_brief(ecfg), type(exc).__name__, exc),
                           explainer=k, cls=ecfg["cls"], exc=type(exc).__name__)
+        return self.check_names_objects()
+
+    def check_names_objects(self):
+        for k, e in enumerate(self.world.explainers):
+            if e is not None and list(e._sim_names_obj) != e._sim_names:
+                return self.v("names-modified", "the caller's feature-name list %r was changed to %r"
+                              % (e._sim_names, list(e._sim_names_obj)), explainer=k, cls=self.world.ecfgs[k]["cls"])
         return None
 
     def before_op(self, ctx):
@@ -356,6 +363,9 @@ class C15Oracle(BaseOracle):
     def after_op(self, ctx):
         w = self.world
         if ctx.op["op"] == "construct":
+            v = self.check_names_objects()
+            if v:
+                return v
             if w.construct_errors:
                 k, ecfg, exc = w.construct_errors[-1]
                 return self.v("construction-failed",
@@ -400,6 +410,9 @@ class C15Oracle(BaseOracle):
             return self.v("y-modified", "y before %r after %r" % (ctx.y_before, ctx.y), explainer=k)
         if list(e.feature_names) != ctx.names_before or ctx.names_before != names:
             return self.v("names-modified", "feature names %r -> %r" % (names, list(e.feature_names)), explainer=k)
+        v = self.check_names_objects()
+        if v:
+            return v
         if not is_incremental(ecfg):
             return None
         eff = effective(ecfg, w)
